@@ -235,6 +235,21 @@ class Sim:
         self.events.append(("drop", [s for s, _ in self.pending]))
         del self.pending[:]
 
+    def join_callback_thread(self):
+        """Pool.terminate() / executor.shutdown(wait=True) join the handler / manager thread: a completion that
+        is in progress finishes before terminate returns (multiprocessing.pool._terminate_pool,
+        loky _ReusablePoolExecutor.shutdown)."""
+        if self.current is not self.main:
+            return
+        n = 0
+        while self.cb_busy and not self.stopping:
+            if self.cb_blocked_on_lock():
+                raise SimHang("terminate() joins the callback thread, which waits for the lock held by the caller")
+            self._handover(self.cb)
+            n += 1
+            if n > 200:
+                raise SimHang("callback thread does not finish")
+
     def drain(self, limit=50):
         """Let the callback thread finish whatever is in progress / completable (used before final checks)."""
         n = 0
@@ -342,6 +357,7 @@ class SimPool:
         self.closed = True
         self.sim.sp("terminate")
         self.sim.drop_pending()
+        self.sim.join_callback_thread()
 
     def join(self):
         pass
@@ -416,6 +432,7 @@ class SimExecutor:
         self.shutdown_called = True
         self.sim.sp("terminate")
         self.sim.drop_pending()
+        self.sim.join_callback_thread()
 
     def shutdown(self, wait=True, kill_workers=False):
         self.terminate(kill_workers)
